@@ -34,6 +34,8 @@ def rq(rng, kind, si_lo, si_hi, unit=None, log=True, n=4, sign=1):
     unit = unit or rng.choice(SI.units(kind))
     x = math.exp(rng.uniform(math.log(si_lo), math.log(si_hi))) if log else rng.uniform(si_lo, si_hi)
     v = sig(sign * x / SI.FACT[kind][unit], n)
+    if float(v).is_integer() and abs(v) < 1e15 and rng.random() < 0.5:
+        v = int(v)                     # quantities may be given as python ints
     return Q(kind, v, unit)
 
 
@@ -252,6 +254,7 @@ def gen_scenario(rng, prof=None, force_selflock=None):
     spec['ic'] = {'pos': pos, 'speed': spd, 'pwm': pwm}
     spec['rules'] = []
     spec['stop'] = None
+    spec['order'] = rng.randrange(24)          # which of the legal orders of public calls the driver uses (see sim/build.py)
     sched = [{'op': 'run', 'dt': dt, 'T': mulq(dt, n)}]
     if rng.random() < p.get('p_nonmultiple_T', 0.0):
         # a duration that is not a whole multiple of the step (legal; the grid properties C11/C12 do not use it)
